@@ -260,6 +260,37 @@ def expset_specs():
     return S
 
 
+def random_expset_spec(rnd, i):
+    """Seeded member with an exponential-cone uncertainty set: dimension 2-3, KL ball / entropy level set on the simplex or
+    a sum-exp / sum-log set in a box; dyadic data (exact in binary, so that scalings inside RSOME are exact)."""
+    n = rnd.choice([2, 3])
+    kind = rnd.choice(['kl', 'kl', 'entropy', 'sumexp', 'sumlog'])
+    simplex = [dict(t='lo', z=0, v=0.0), dict(t='lin', e=[['z', 0, 1.0]], sense='eq', rhs=1.0)]
+    if kind == 'kl':
+        q = {2: [[0.5, 0.5], [0.25, 0.75]], 3: [[0.25, 0.25, 0.5], [0.5, 0.25, 0.25], [0.125, 0.375, 0.5]]}[n]
+        sets = simplex + [dict(t='kldiv', z=0, q=rnd.choice(q), r=rnd.choice([0.0625, 0.125, 0.25, 0.5]))]
+    elif kind == 'entropy':
+        sets = simplex + [dict(t='entropy', z=0, r=rnd.choice([0.25, 0.5, 0.625]) if n == 2 else rnd.choice([0.5, 0.75, 1.0]))]
+    elif kind == 'sumexp':
+        sets = [dict(t='sumexp', z=0, r=rnd.choice([3.0, 4.0, 6.0])), dict(t='lo', z=0, v=rnd.choice([-1.0, -0.5])),
+                dict(t='hi', z=0, v=1.0)]
+    else:
+        sets = [dict(t='log', z=0, c=[1.0] * n, r=rnd.choice([0.0, -0.5])), dict(t='hi', z=0, v=rnd.choice([1.0, 2.0]))]
+    M = [[(rnd.choice([-2, -1, 0.5, 1, 2, 4]) if a == b else rnd.choice([-1, 0.5, 1])) if a == b or rnd.random() < 0.3 else 0
+          for b in range(n)] for a in range(n)]
+    cost = [['xz', 0, 0, M], ['x', 1, -1.0]]
+    rows = [dict(e=cost, sense=rnd.choice(['le', 'le', 'ge']), rhs=0.0, set=0),
+            dict(e=[['x', 0, 1.0]], sense='eq', rhs=1.0)]
+    sense = rows[0]['sense']
+    d = dict(name='rand-expset%d-%s' % (i, kind), dv=[dict(shape=[n]), dict(shape=[])], rv=[[n]], sets=[sets], rows=rows,
+             bounds=[dict(x=0, lo=0.0, hi=0.75), dict(x=1, lo=-10.0, hi=10.0)],
+             obj=dict(kind=('min' if sense == 'le' else 'max'), e=[['x', 1, 1.0]]))
+    if rnd.random() < 0.3:
+        d['rows'] = [rows[1]]
+        d['obj'] = dict(kind='minmax', e=[['xz', 0, 0, M]], set=0)
+    return d
+
+
 # ------------------------------------------------------------------ curated core
 def box(lo, hi, z=0):
     out = []
